@@ -777,7 +777,8 @@ PROPS = {
         "props_module": "HdModel.Props.C13",
         "class_prefix": ["C13/"],
         "theorems": ["Hd.Wire.C13_protocol_choice", "Hd.Wire.C13_requested", "Hd.Wire.C13_h1_target", "Hd.Wire.C13_h1_host",
-                     "Hd.Wire.C13_host_value", "Hd.Wire.C13_h2_sanitised", "Hd.Wire.C13_h2_connect_rejected"],
+                     "Hd.Wire.C13_host_value", "Hd.Wire.C13_h2_sanitised", "Hd.Wire.C13_h2_connect_rejected",
+                     "Hd.Wire.C13_version_matches", "Hd.Wire.C13_h1_host_present", "Hd.Wire.C13_h2_no_host"],
         "streams": [
             {"name": "wire", "quick": 5000, "thorough": 100000, "head": 10, "unit": 1, "batch": 5000,
              "nontrivial": wire_nontrivial, "distribution": wire_dist},
